@@ -45,11 +45,13 @@ namespace glm
 			detail::float_t<T> const a(x[i]);
 			detail::float_t<T> const b(y[i]);
 
-			// Different signs means they do not match.
+			// Different signs: +0 and -0 are the same value, so the values are |a| + |b| representable steps apart.
 			if(a.negative() != b.negative())
 			{
-				// Check for equality to make sure +0==-0
-				Result[i] = a.mantissa() == b.mantissa() && a.exponent() == b.exponent();
+				typedef typename detail::make_unsigned<typename detail::float_t<T>::int_type>::type uint_type;
+				uint_type const Magnitude = static_cast<uint_type>(std::numeric_limits<typename detail::float_t<T>::int_type>::max());
+				uint_type const SumULPs = (static_cast<uint_type>(a.i) & Magnitude) + (static_cast<uint_type>(b.i) & Magnitude);
+				Result[i] = MaxULPs[i] >= 0 && SumULPs <= static_cast<uint_type>(MaxULPs[i]);
 			}
 			else
 			{
